@@ -167,7 +167,12 @@ Scalar MASA::cp_normal<Scalar>::eval_posterior(Scalar x)
 template <typename Scalar>
 Scalar MASA::cp_normal<Scalar>::factorial(int n)
 {
-  return (n == 1 || n == 0) ? 1 : factorial(n - 1) * n;
+  // iterative: the recursive form never terminated for n < 0 and overflowed
+  // the stack for large n (same products, in the same order, for n >= 0)
+  Scalar f = 1;
+  for(int i = 2; i <= n; ++i)
+    f *= i;
+  return f;
 }
 
 template <typename Scalar>
